@@ -10,6 +10,8 @@ def run(repo, res, tier):
         "AST); TB4 quotes/units delimiters reserved, whitespace tables; TB5 preferred keywords pair up in the keyword "
         "tables; TB8 lexer/decoder agreement on based integers (DFA inclusion both ways, with witness); N1 no "
         "spelling outside the numeric grammar is accepted by decode_decimal (language of int()/float() models); "
+        "LEX1 the lexer's end-of-lexeme decision (DFAs derived from the ASTs of lex_continue and the yield condition) never "
+        "splits a decimal, based integer or date/time the decoder accepts as one value; "
         "T6 a comment/white-space run is skipped before every significant token read. "
         "Not decided: the denotation of each spelling (values are not computed), lexeme boundaries next to + # -.")
     tablerules.rule_tb1(repo, res)
@@ -20,6 +22,7 @@ def run(repo, res, tier):
     tablerules.rule_tb5(repo, res)
     an = langrules.analyse(repo)
     langrules.rule_tb8(repo, res, an)
+    langrules.rule_lex1(repo, res, an)
     langrules.rule_n1(repo, res, an)
     pan = parserules.analyse(repo)
     t6 = parserules.add_rule(res, pan, "T6")
